@@ -170,7 +170,7 @@ func nestedDoc(n, k int) (Map, []Map) {
 func H_C07_subquery() {
 	n := verif.Choose("rows", maxRows(2, 2)+1)
 	k := verif.Choose("nested", 3)
-	form := verif.Choose("form", 5)
+	form := verif.Choose("form", 8)
 	doc, rows := nestedDoc(n, k)
 	c := verif.F64("c")
 	var sql string
@@ -185,6 +185,12 @@ func H_C07_subquery() {
 		sql = "SELECT a FROM t WHERE EXISTS (SELECT p FROM items WHERE p > a)"
 	case 4:
 		sql = "SELECT a, (SELECT g AS g FROM `<-`) AS root FROM t"
+	case 5:
+		sql = "SELECT a FROM t WHERE EXISTS (SELECT p FROM items WHERE p > `<-a`)"
+	case 6:
+		sql = "SELECT a FROM t WHERE EXISTS (SELECT p FROM items WHERE p > `<-<-g`)"
+	case 7:
+		sql = "SELECT a, (SELECT p FROM items WHERE p > `<-a`) AS sub FROM t"
 	}
 	got, ok := runQuery(doc, sql)
 	if !ok {
@@ -213,11 +219,19 @@ func H_C07_subquery() {
 			if in {
 				want = append(want, Map{"a": a})
 			}
-		case 2, 3:
+		case 7:
+			sub := []any{}
+			for _, it := range items {
+				if f64of(it.(Map)["p"]) > a {
+					sub = append(sub, Map{"p": it.(Map)["p"]})
+				}
+			}
+			want = append(want, Map{"a": a, "sub": sub})
+		case 2, 3, 5, 6:
 			ex := false
 			for _, it := range items {
 				p := f64of(it.(Map)["p"])
-				if (form == 2 && p > c) || (form == 3 && p > a) {
+				if (form == 2 && p > c) || ((form == 3 || form == 5) && p > a) || (form == 6 && p > 5) {
 					ex = true
 				}
 			}
